@@ -3,6 +3,8 @@ CONSTANTS
   MaxAdds = 3
   Ticks = {1000, 1004, 2000, 2500}
   MaxLen = 2
+  MaxLenI = 2
+  MaxSets = 1
   Tols = {10}
   Kinds = {"float"}
   Assocs = {"V", "C"}
